@@ -45,7 +45,7 @@ FAULT_KINDS = ["branch-raises-other-lena-exception", "LenaStopFill-from-probe", 
                "empty-flow"]
 EXPECTED_PROBES = ["stop-in-last-slot-of-block", "two-branches-stop-in-same-block",
                    "source-branch-after-first-block", "empty-flow-all-kinds", "common-type-fill-compute",
-                   "common-type-fill-request", "common-type-call", "zip", "zip-with-fields", "empty-split",
+                   "common-type-fill-request", "common-type-call", "zip", "zip-with-fields", "nested-mixed-split-as-branch", "empty-split",
                    "fr-tuple-bufsize-none", "multi-block", "same-split-run-twice",
                    "accumulator-inside-explicit-sequence"]
 
@@ -74,6 +74,16 @@ def gen_branch(tape, name, kinds, allow_stop=True):
     b = Spec()
     b.name = name
     b.kind = tape.weighted(kinds, "branch-kind")
+    if b.kind == "nested":
+        # a Split of branches without a common type used as a branch: it is a run element, run on
+        # every block like a plain Sequence
+        b.pre, b.npost, b.stop_at, b.results, b.form, b.none_at, b.err_at = [], 0, None, 1, "explicit", None, None
+        b.sub = [gen_branch(tape, name + "n0", [(1, "fc")], allow_stop=False),
+                 gen_branch(tape, name + "n1", [(1, "seq")], allow_stop=False)]
+        if tape.draw(2, "nested-order"):
+            b.sub.reverse()
+        b.inner = tape.choice([1000, 1, 2], "nested-bufsize")
+        return b
     b.pre = []
     b.npost = 0
     b.stop_at = None
@@ -126,7 +136,7 @@ def gen_scenario(tape):
     sc.copy_buf = not tape.chance(1, 4, "copy-buf-off")
     if sc.mode == "run":
         nb = tape.weighted([(1, 0), (3, 1), (4, 2), (3, 3), (2, 4)], "nbranches")
-        kinds = [(2, "source"), (4, "fc"), (4, "fr"), (4, "seq")]
+        kinds = [(2, "source"), (4, "fc"), (4, "fr"), (4, "seq"), (1, "nested")]
         sc.branches = [gen_branch(tape, "b%d" % i, kinds) for i in range(nb)]
     else:
         nb = 1 + tape.draw(3, "nbranches")
@@ -143,6 +153,9 @@ def gen_scenario(tape):
 
 
 def describe_branch(b):
+    if b.kind == "nested":
+        return "%s=Split([%s], bufsize=%s) used as a branch" % (
+            b.name, "; ".join(describe_branch(x) for x in b.sub), b.inner)
     if b.kind == "source":
         return "%s=Source(m=%d, post=%d)" % (b.name, b.m, b.npost)
     if b.kind in ("fc", "fr"):
@@ -182,6 +195,8 @@ def post_calls(b, log):
 # real branches
 
 def real_branch(b, log):
+    if b.kind == "nested":
+        return lena.core.Split([real_branch(x, log) for x in b.sub], bufsize=b.inner)
     if b.kind == "source":
         els = [ProbeSrc(log, b.name + ".src", b.m)]
         els += post_calls(b, log)
@@ -241,6 +256,11 @@ class MBranch(object):
         self.b = b
         self.kind = b.kind
         self.log = log
+        if b.kind == "nested":
+            # scheduled like a plain Sequence; its run is the reference scheduler itself
+            self.kind = "seq"
+            self.nested = [MBranch(x, log) for x in b.sub]
+            return
         if b.kind == "source":
             self.src = ProbeSrc(log, b.name + ".src", b.m)
         elif b.kind in ("fc", "fr"):
@@ -321,6 +341,8 @@ class MBranch(object):
         return self._posted(self.src())
 
     def run(self, block):
+        if self.b.kind == "nested":
+            return ref_split_run(self.nested, block, self.b.inner)
         flow = iter(block)
         for kind, st in self.stages:
             if kind == "map":
@@ -514,10 +536,12 @@ def _probes(sc, res, mlog):
             res.fault("LenaStopFill-from-Slice")
     if sc.n == 0:
         res.fault("empty-flow")
-        if len(set(b.kind for b in sc.branches)) == 4:
+        if len(set(b.kind for b in sc.branches) - set(["nested"])) == 4:
             res.probe("empty-flow-all-kinds")
     if not sc.branches:
         res.probe("empty-split")
+    if any(b.kind == "nested" for b in sc.branches):
+        res.probe("nested-mixed-split-as-branch")
     if any(b.kind == "seq" and any(st[0] == "fc" for st in b.stages) for b in sc.branches):
         res.probe("accumulator-inside-explicit-sequence")
     B = sc.bufsize
@@ -565,7 +589,7 @@ def compare(sc, res, real, model, what):
             for b in sc.branches:
                 if b.name == name:
                     return {"fc": "fill_compute", "fr": "fill_request", "seq": "sequence",
-                            "source": "source"}[b.kind]
+                            "source": "source", "nested": "sequence"}[b.kind]
         return "flow"
     stopped = any(e[0] == "stopfill" for e in model[:i + 1]) or any(
         b.kind in ("fc", "fr") and any(st[0] == "slice" for st in b.pre) for b in sc.branches)
